@@ -15,6 +15,8 @@ caller= / varargs / kwargs; the bound variables optionally named caller, loop,
 varargs, self, range ...) to one call site (plain, with arguments, *args /
 **kwargs, {% call %}, inside filter / test arguments, conditions, loop
 sources, macro defaults, caller bodies, recursive loops ...), sync and async,
+the bound variable optionally having a history (spec/SandboxNames.tla: bound
+before by a macro definition / set / with / for / parameter to something safe),
 with the default and with an overridden is_safe_callable.  Sessions: ONE
 environment serves a sequence of renders (SandboxGate.NewRender) whose
 callables are built afresh per render and dropped, are methods of one class
@@ -782,6 +784,18 @@ def design_model(ck):
                   "deny-by-identity and deny-by-receiver policy")
     if quick:
         su.require_cov(ck, r, ["MFetch", "MCallGate", "MRun", "MNewRender"])
+    # names with a history (SandboxNames.tla): the rule holds; with the shortcut "a name some macro definition binds
+    # needs no gate" (negative control) and for the reachability witness TLC must report a violation
+    for label, trust, invs, expect in (("rule", "FALSE", ["NTypeOK", "C18_NamesUnsafeNeverRuns", "C18_EveryCallAsksTheGate"], True),
+                                       ("shortcut", "TRUE", ["C18_NamesUnsafeNeverRuns"], False),
+                                       ("witness", "FALSE", ["NoRefusalOfARebound"], False)):
+        cfg = (f"CONSTANTS\n  Names = {{\"h\", \"a\"}}\n  MaxDepth = {2 if quick else 3}\n  MaxSteps = {5 if quick else 6}\n"
+               f"  TrustMacroNames = {trust}\nSPECIFICATION NSpec\n" + "".join(f"INVARIANT {i}\n" for i in invs))
+        rn = core.run_tlc(PID, "SandboxNames", cfg, name=f"names_{label}", workers=4, timeout=3000)
+        if not expect and rn.ok:
+            raise core.MachineryError(f"SandboxNames ({label}): TLC found no violation where one must exist")
+        ck.add_tlc(rn, f"SandboxNames ({label}): a call asks the gate about the value the name holds when it is called, "
+                       f"whatever bound the name before", expect_ok=expect)
 
 
 def run(ck):
